@@ -64,6 +64,25 @@ def _check_chunk(cases):
 
         for name, e in c["det"].items():
             run(name, e, impl=c["impl"].get(name))
+        # shift lemmas (Metrics!ShiftLemmas, checked by TLC): the same expected value after adding 10^6 to the forecasts / to both series
+        K = 1.0e6
+        for names, dobs, dfc, what in ((c.get("shiftF", []), 0.0, K, "fcst + 1e6"), (c.get("shiftBoth", []), K, K, "obs + 1e6, fcst + 1e6")):
+            for name in names:
+                want = expr.ev(c["det"][name])
+                try:
+                    with quiet():
+                        got = verif.metric.get(name).compute_from_obs_fcst(obs + dobs, fcst + dfc)
+                    n += 1
+                    ok = (want == "undef" and (np.isnan(got) or np.isinf(got) or abs(got) < 1e-3)) or expr.agrees(want, got, rtol=1e-6, atol=1e-6)
+                    if want == "undef" or (isinstance(want, float) and np.isnan(want)):
+                        ok = ok or bool(np.isnan(got)) or abs(got) < 1e-3 or abs(abs(got) - 1) < 1e-6     # 0/0 of the definition: rounding decides
+                    if not ok:
+                        divs.append(("metric:%s:shifted" % name, False, "%s on obs=%r fcst=%r with %s: expected %r (shift lemma) observed %r"
+                                     % (name, c["o"], c["f"], what, want, float(got)),
+                                     {"kind": "metric", "metric": name, "shift": what, "case": {"o": c["o"], "f": c["f"]}}))
+                except Exception as ex:
+                    divs.append((exc_site(ex), False, "%s with %s on obs=%r fcst=%r: %r" % (name, what, c["o"], c["f"], ex),
+                                 {"kind": "metric", "metric": name, "case": {"o": c["o"], "f": c["f"]}}))
         # -m within: percentage of absolute errors in the event of the bin type (thresholds 1, 2)
         valid = ~(np.isnan(obs) | np.isnan(fcst))
         for bt, e in c.get("within", {}).items():
